@@ -175,12 +175,12 @@ class JacBlock:
                                          f"Equation size {EqnSize} in vector derivative case.")
                     self.DeriExprBc = self.DeriExpr
                 case 'matrix':
-                    if self.Value0.shape[0] == EqnSize:
-                        try:
-                            self.Value0 @ DiffVarValue
-                        except ValueError:
-                            raise ValueError(f"Incompatible matrix derivative size {self.Value0.shape} " +
-                                             f"and vector variable size {DiffVarValue.shape}.")
+                    if self.Value0.shape[0] != EqnSize:
+                        raise ValueError(f"Incompatible matrix derivative size {self.Value0.shape} " +
+                                         f"and equation size {EqnSize}.")
+                    if self.Value0.shape[1] != DiffVarValue.size:
+                        raise ValueError(f"Incompatible matrix derivative size {self.Value0.shape} " +
+                                         f"and vector variable size {DiffVarValue.shape}.")
                     self.DeriExprBc = self.DeriExpr
                 case _:
                     raise TypeError(f"Derivative with value {self.Value0} of vector variables not supported!")
